@@ -6,4 +6,7 @@ From Coq Require Import ExtrOcamlBasic.
 From JV Require Import Gen.Consts Model.TT.
 Extraction Language OCaml.
 From JV Require Import Spec.TTSpec.
-Extraction "Extract/model.ml" TT.run_reqs TT.table TT.probe TTSpec.monitor.
+From JV Require Import Model.Go.
+From JV Require Import Spec.Rays.
+Extraction "Extract/model.ml" TT.run_reqs TT.table TT.probe TTSpec.monitor Go.parse_go
+  Rays.slide Rays.leaper Rays.rook_dirs Rays.bishop_dirs Rays.knight_offs Rays.king_offs Rays.wpawn_offs Rays.bpawn_offs.
